@@ -131,7 +131,11 @@ def build(aotools):
         m[0, 0] = 1
         masks = [m, np.ones((3, 3))]
         return [_call(2, masks, 3.0, np.array([1.0, 1.0]), np.array([0.0, 9e4]), np.array([[0.0, 0.0], [10.0, -5.0]]), np.array([5e-7, 6e-7]),
-                      2, np.array([0.0, 5e3]), np.array([0.2, 0.4]), np.array([25.0, 25.0]), 1)]
+                      2, np.array([0.0, 5e3]), np.array([0.2, 0.4]), np.array([25.0, 25.0]), 1),
+                # natural guide stars off axis (one beside a laser guide star), layers above the ground
+                _call(2, masks, 3.0, np.array([1.0, 1.0]), np.array([0.0, 9e4]), np.array([[7.0, 3.0], [10.0, -5.0]]), np.array([5e-7, 6e-7]),
+                      2, np.array([2e3, 8e3]), np.array([0.2, 0.4]), np.array([25.0, 40.0]), 1),
+                _call(2, masks, 3.0, [1.0, 1.0], [0.0, 0.0], [[-12.0, 4.0], [6.0, 9.0]], [5e-7, 5e-7], 1, [6e3], [0.15], [30.0], 1)]
     R["turbulence.slopecovariance:CovarianceMatrix"] = _cov
     pos = lambda g, n: g.uniform(-2, 2, (n, 2))
     R["turbulence.slopecovariance:wfs_covariance"] = lambda g: [_call(4, 3, pos(g, 4), pos(g, 3), 0.5, 0.4, 0.2, 25.0), _call(4, 3, pos(g, 4), pos(g, 3), 0.5, 0.4, 0.2, 25.0, True)]
